@@ -37,7 +37,7 @@
 (* warm; GasComparable says when a block has no such second access, and the  *)
 (* validator compares gas only then.                                       *)
 (***************************************************************************)
-EXTENDS Naturals, Sequences, SequencesExt, FiniteSets
+EXTENDS Naturals, Sequences, SequencesExt, FiniteSets, TLC
 
 AddressLength == 2
 
@@ -116,6 +116,74 @@ GasStatic(block, push0) == FoldLeft(LAMBDA acc, it : acc + GasOf(it, push0), 0, 
 GasComparable(block) ==
   /\ Cardinality({i \in 1..Len(block) : block[i].n \in {"SLOAD", "SSTORE"}}) <= 1
   /\ Cardinality({i \in 1..Len(block) : block[i].n \in ColdAccount}) <= 1
+
+-----------------------------------------------------------------------------
+(* SYMGAS: the tool's documented accounting of a block's gas (AsmBlock.gas_spent): the block is executed on    *)
+(* symbolic terms - initial stack elements s(i), constants by value, every other result named by its operator  *)
+(* and operand terms - and an SLOAD / SSTORE / account access is priced warm (100; an SSTORE then pays only    *)
+(* its reset part) iff an access to a SYNTACTICALLY EQUAL term happened earlier in the block, cold otherwise.  *)
+(* Storage slots and accounts are separate name spaces.  A zero push is the constant 0 whichever way it is     *)
+(* spelled.  Terms are strings, so that terms of different shape can be compared.                             *)
+SymArity ==
+  [ADD |-> <<2,1>>, MUL |-> <<2,1>>, SUB |-> <<2,1>>, DIV |-> <<2,1>>, SDIV |-> <<2,1>>, MOD |-> <<2,1>>, SMOD |-> <<2,1>>,
+   ADDMOD |-> <<3,1>>, MULMOD |-> <<3,1>>, EXP |-> <<2,1>>, SIGNEXTEND |-> <<2,1>>, LT |-> <<2,1>>, GT |-> <<2,1>>,
+   SLT |-> <<2,1>>, SGT |-> <<2,1>>, EQ |-> <<2,1>>, ISZERO |-> <<1,1>>, AND |-> <<2,1>>, OR |-> <<2,1>>, XOR |-> <<2,1>>,
+   NOT |-> <<1,1>>, BYTE |-> <<2,1>>, SHL |-> <<2,1>>, SHR |-> <<2,1>>, SAR |-> <<2,1>>, KECCAK256 |-> <<2,1>>, SHA3 |-> <<2,1>>,
+   ADDRESS |-> <<0,1>>, BALANCE |-> <<1,1>>, ORIGIN |-> <<0,1>>, CALLER |-> <<0,1>>, CALLVALUE |-> <<0,1>>,
+   CALLDATALOAD |-> <<1,1>>, CALLDATASIZE |-> <<0,1>>, CALLDATACOPY |-> <<3,0>>, CODESIZE |-> <<0,1>>, CODECOPY |-> <<3,0>>,
+   GASPRICE |-> <<0,1>>, EXTCODESIZE |-> <<1,1>>, EXTCODECOPY |-> <<4,0>>, RETURNDATASIZE |-> <<0,1>>,
+   RETURNDATACOPY |-> <<3,0>>, EXTCODEHASH |-> <<1,1>>, BLOCKHASH |-> <<1,1>>, COINBASE |-> <<0,1>>, TIMESTAMP |-> <<0,1>>,
+   NUMBER |-> <<0,1>>, DIFFICULTY |-> <<0,1>>, PREVRANDAO |-> <<0,1>>, GASLIMIT |-> <<0,1>>, CHAINID |-> <<0,1>>,
+   SELFBALANCE |-> <<0,1>>, BASEFEE |-> <<0,1>>, POP |-> <<1,0>>, MLOAD |-> <<1,1>>, MSTORE |-> <<2,0>>, MSTORE8 |-> <<2,0>>,
+   SLOAD |-> <<1,1>>, SSTORE |-> <<2,0>>, JUMP |-> <<1,0>>, JUMPI |-> <<2,0>>, GAS |-> <<0,1>>, JUMPDEST |-> <<0,0>>,
+   tag |-> <<0,0>>, LOG0 |-> <<2,0>>, LOG1 |-> <<3,0>>, LOG2 |-> <<4,0>>, LOG3 |-> <<5,0>>, LOG4 |-> <<6,0>>,
+   CREATE |-> <<3,1>>, CALL |-> <<7,1>>, CALLCODE |-> <<7,1>>, RETURN |-> <<2,0>>, DELEGATECALL |-> <<6,1>>,
+   CREATE2 |-> <<4,1>>, STATICCALL |-> <<6,1>>, REVERT |-> <<2,0>>, INVALID |-> <<0,0>>, STOP |-> <<0,0>>,
+   SELFDESTRUCT |-> <<1,0>>, ASSIGNIMMUTABLE |-> <<2,0>>, PUSHLIB |-> <<0,1>>, PUSHDEPLOYADDRESS |-> <<0,1>>,
+   PUSHSIZE |-> <<0,1>>, PUSHIMMUTABLE |-> <<0,1>>]
+PseudoPush == {"PUSH [tag]", "PUSH data", "PUSH [$]", "PUSH #[$]"}
+DupK(n)  == IF \E k \in 1..16 : n = "DUP" \o ToString(k) THEN CHOOSE k \in 1..16 : n = "DUP" \o ToString(k) ELSE 0
+SwapK(n) == IF \E k \in 1..16 : n = "SWAP" \o ToString(k) THEN CHOOSE k \in 1..16 : n = "SWAP" \o ToString(k) ELSE 0
+SymKnown(it) == it.n \in DOMAIN SymArity \/ it.n \in PseudoPush \cup {"PUSH", "PUSH0"} \/ DupK(it.n) > 0 \/ SwapK(it.n) > 0
+SymPriceable(block) == Priceable(block) /\ \A i \in 1..Len(block) : SymKnown(block[i])
+
+LowerOf(c) == CASE c = "A" -> "a" [] c = "B" -> "b" [] c = "C" -> "c" [] c = "D" -> "d" [] c = "E" -> "e" [] c = "F" -> "f" [] OTHER -> c
+\* canonical text of a hexadecimal constant: no leading zeros, lower case, "0" for zero
+CanonHex(v) ==
+  LET k == SigDigits(v) IN
+  IF k = 0 THEN "0"
+  ELSE FoldLeft(LAMBDA acc, i : acc \o LowerOf(SubSeq(v, i, i)), "", [j \in 1..k |-> Len(v) - k + j])
+JoinTerms(ts) == FoldLeft(LAMBDA acc, i : IF i = 1 THEN ts[1] ELSE acc \o "," \o ts[i], "", [j \in 1..Len(ts) |-> j])
+
+\* acc = [stack, nin, gas, slots, accts]; the stack grows at the bottom with fresh input symbols when an instruction reaches below it
+SymFill(acc, k) ==
+  IF Len(acc.stack) >= k THEN acc
+  ELSE LET m == k - Len(acc.stack) IN
+       [acc EXCEPT !.stack = acc.stack \o [j \in 1..m |-> "s(" \o ToString(acc.nin + j - 1) \o ")"], !.nin = acc.nin + m]
+SymStep(acc0, it, push0) ==
+  LET n == it.n IN
+  IF n = "PUSH" THEN [acc0 EXCEPT !.stack = <<"#" \o CanonHex(it.v)>> \o acc0.stack, !.gas = @ + GasOf(it, push0)]
+  ELSE IF n = "PUSH0" THEN [acc0 EXCEPT !.stack = <<"#0">> \o acc0.stack, !.gas = @ + GasOf(it, push0)]
+  ELSE IF n \in PseudoPush \/ n \in {"PUSHLIB", "PUSHIMMUTABLE"} THEN [acc0 EXCEPT !.stack = <<n \o ":" \o it.v>> \o acc0.stack, !.gas = @ + GasOf(it, push0)]
+  ELSE IF DupK(n) > 0 THEN LET a == SymFill(acc0, DupK(n)) IN [a EXCEPT !.stack = <<a.stack[DupK(n)]>> \o a.stack, !.gas = @ + 3]
+  ELSE IF SwapK(n) > 0 THEN LET k == SwapK(n)  a == SymFill(acc0, k + 1) IN
+                            [a EXCEPT !.stack = [a.stack EXCEPT ![1] = a.stack[k + 1], ![k + 1] = a.stack[1]], !.gas = @ + 3]
+  ELSE
+  LET ar == SymArity[n]
+      a  == SymFill(acc0, ar[1])
+      ops == SubSeq(a.stack, 1, ar[1])
+      rest == SubSeq(a.stack, ar[1] + 1, Len(a.stack))
+      res == IF ar[2] = 0 THEN <<>> ELSE IF ar[1] = 0 THEN <<n>> ELSE <<n \o "(" \o JoinTerms(ops) \o ")">>
+      key == IF ar[1] > 0 THEN ops[1] ELSE ""
+      g == IF n = "SLOAD" THEN (IF key \in a.slots THEN 100 ELSE 2100)
+           ELSE IF n = "SSTORE" THEN (IF key \in a.slots THEN 0 ELSE 2100) + 2900
+           ELSE IF n \in ColdAccount THEN (IF key \in a.accts THEN 100 ELSE 2600)
+           ELSE GasOf(it, push0)
+  IN  [stack |-> res \o rest, nin |-> a.nin, gas |-> a.gas + g,
+       slots |-> IF n \in {"SLOAD", "SSTORE"} THEN a.slots \cup {key} ELSE a.slots,
+       accts |-> IF n \in ColdAccount THEN a.accts \cup {key} ELSE a.accts]
+SymGas(block, push0) ==
+  FoldLeft(LAMBDA acc, it : SymStep(acc, it, push0), [stack |-> <<>>, nin |-> 0, gas |-> 0, slots |-> {}, accts |-> {}], block).gas
 
 \* C08: better in the criterion, ties broken by the other measures (not used by C17)
 Cost(crit, block, push0) ==
